@@ -69,7 +69,7 @@ class NpShim(sx.NpShim):
 
     def geomspace(self, start, stop, num=50, **kw):
         """endpoints are returned exactly by NumPy (endpoint=True); with num == 2 there is nothing in between.
-        More points with symbolic endpoints need the geomspace_c contract (C14) and are not modelled here."""
+        For more points the endpoints are forked by value and real NumPy is called."""
         seqs = isinstance(start, (tuple, list))
         flat = list(start) + list(stop) if seqs else [start, stop]
         if not any(isinstance(v, (sx.SInt, sx.SRat)) for v in flat) and not isinstance(num, sx.SInt):
@@ -77,7 +77,15 @@ class NpShim(sx.NpShim):
         num = sx.conc(num)
         if num == 2:
             return [list(start), list(stop)] if seqs else [start, stop]
-        raise anp.Unsupported("np.geomspace with interior points on symbolic endpoints")
+        if num < 2:
+            raise anp.Unsupported("np.geomspace with num < 2")
+        # interior points: the endpoints are forked by value (the solver enumerates every feasible pair under the
+        # path condition) and the real np.geomspace is called on them, so no model of its rounding is needed
+        starts = [sx.conc(v) for v in (start if seqs else [start])]
+        stops = [sx.conc(v) for v in (stop if seqs else [stop])]
+        if seqs:
+            return self._real.geomspace(starts, stops, num, **kw)
+        return self._real.geomspace(starts[0], stops[0], num, **kw)
 
     def ravel_multi_index(self, idx, shape):
         if not (any(isinstance(i, sx.SInt) for i in idx) or any(isinstance(s, sx.SInt) for s in shape)):
